@@ -23,10 +23,13 @@ type store struct {
 	s map[string]*ed.Scalar
 	p map[string]*ed.Point
 	b map[string][]byte
+	// backing arrays of the byte strings created by B.set: they carry 64 spare bytes of capacity filled with a canary,
+	// so that a callee writing beyond len (append into the caller's buffer) is observed
+	back map[string][]byte
 }
 
 func newStore() *store {
-	return &store{map[string]*field.Element{}, map[string]*ed.Scalar{}, map[string]*ed.Point{}, map[string][]byte{}}
+	return &store{map[string]*field.Element{}, map[string]*ed.Scalar{}, map[string]*ed.Point{}, map[string][]byte{}, map[string][]byte{}}
 }
 
 func joinU(xs []uint64) string {
@@ -68,7 +71,16 @@ func (st *store) show(m mention) string {
 		}
 	case 'B':
 		if v, ok := st.b[m.name]; ok {
-			return m.name + "=B:" + hexOf(v)
+			tail := ""
+			if bk, ok := st.back[m.name]; ok && len(v) > 0 && len(bk) == len(v)+64 && &bk[0] == &v[0] {
+				for _, c := range bk[len(v):] {
+					if c != 0xA5 {
+						tail = "!spare-capacity-modified:" + hex.EncodeToString(bk[len(v):])
+						break
+					}
+				}
+			}
+			return m.name + "=B:" + hexOf(v) + tail
 		}
 	}
 	return m.name + "=?"
@@ -291,7 +303,13 @@ func (st *store) exec(ws []string) (res result) {
 		} else {
 			b = []byte{}
 		}
-		st.b[a[0]] = b
+		bk := make([]byte, len(b)+64)
+		copy(bk, b)
+		for i := len(b); i < len(bk); i++ {
+			bk[i] = 0xA5
+		}
+		st.back[a[0]] = bk
+		st.b[a[0]] = bk[:len(b)]
 		return result{out: "ok", mentions: ms("B", a[0])}
 	case "B.mutate": // overwrite a previously stored (possibly returned) slice in place
 		need(a, 2)
@@ -428,6 +446,7 @@ func (st *store) exec(ws []string) (res result) {
 	case "E.Bytes":
 		need(a, 2)
 		v := st.E(a[0])
+		delete(st.back, a[1])
 		st.b[a[1]] = v.Bytes()
 		return result{out: "ok", mentions: ms("EB", a[0], a[1])}
 	case "E.Equal":
@@ -496,6 +515,7 @@ func (st *store) exec(ws []string) (res result) {
 	case "S.Bytes":
 		need(a, 2)
 		s := st.S(a[0])
+		delete(st.back, a[1])
 		st.b[a[1]] = s.Bytes()
 		return result{out: "ok", mentions: ms("SB", a[0], a[1])}
 	case "S.Equal":
@@ -540,6 +560,7 @@ func (st *store) exec(ws []string) (res result) {
 		} else {
 			b = v.BytesMontgomery()
 		}
+		delete(st.back, a[1])
 		st.b[a[1]] = b
 		res.out = "ok"
 		return
@@ -630,10 +651,19 @@ func (st *store) exec(ws []string) (res result) {
 			qs = append(qs, st.P(nm))
 			res.mentions = append(res.mentions, mention{'P', nm})
 		}
+		xs0 := append([]*ed.Scalar(nil), xs...)
+		qs0 := append([]*ed.Point(nil), qs...)
 		if op == "P.MultiScalarMult" {
 			res.out = retP(v.MultiScalarMult(xs, qs), v)
 		} else {
 			res.out = retP(v.VarTimeMultiScalarMult(xs, qs), v)
+		}
+		// the caller's slices themselves (which element sits at which index) must be untouched
+		for i := range xs0 {
+			if xs[i] != xs0[i] || qs[i] != qs0[i] {
+				res.out += ":slice-modified"
+				break
+			}
 		}
 		return
 
